@@ -103,6 +103,9 @@ pub struct ExecReport {
     pub degraded: bool,
     #[serde(default)]
     pub engine: String,
+    /// FNV-64 of every distinct program text / file tree this execution compiled
+    #[serde(default)]
+    pub prog_keys: Vec<u64>,
 }
 
 #[derive(Serialize, Deserialize, Clone, Debug)]
@@ -327,6 +330,19 @@ fn run_one(plan: &Plan, refs: &mut RefTable, rerun: bool, want_sample: bool) -> 
     kinds.sort();
     kinds.dedup();
     rep.op_kinds = kinds;
+    let mut pk: Vec<u64> = plan
+        .threads
+        .iter()
+        .flatten()
+        .chain(plan.sentinel.iter())
+        .filter_map(|c| match &c.op {
+            Op::Project { files, .. } => Some(fnv(serde_json::to_string(files).unwrap().as_bytes())),
+            o => o.src().map(|s| fnv(s.as_bytes())),
+        })
+        .collect();
+    pk.sort();
+    pk.dedup();
+    rep.prog_keys = pk;
     rep.viol = res.violations;
     if out.noreturn.as_deref().and_then(classify_noreturn).is_some() {
         // already a violation
